@@ -118,7 +118,7 @@ func (c10) Run(e *Env) {
 	if len(e.Insts) == 2 {
 		l1 := buildLedgerFor(e, sp, 1)
 		parts1 := checkSessionsInst(e, sp, l1, "C10", 1)
-		compareTwin(e, sp, l, parts0, parts1)
+		compareTwin(e, sp, l, l1, parts0, parts1)
 	}
 }
 
@@ -496,15 +496,32 @@ func buildLedgerFor(e *Env, sp *evSpec, inst int) *evLedger {
 
 // compareTwin: for keys whose rows arrive in timestamp order and on time, the delivered
 // partitions of the two instances (fed at different speeds) must be identical.
-func compareTwin(e *Env, sp *evSpec, l *evLedger, a, b sessionPart) {
+func compareTwin(e *Env, sp *evSpec, l, l1 *evLedger, a, b sessionPart) {
 	perKey := map[string][]*evRow{}
+	rowsOf := func(l *evLedger) (map[string]string, bool) {
+		m := map[string]string{}
+		flush := false
+		for _, er := range l.Rows {
+			if er.ID == "flush" {
+				flush = true
+			} else {
+				m[er.KeyS] += fmt.Sprintf("%s@%d ", er.ID, er.TS)
+			}
+		}
+		return m, flush
+	}
+	rows0, flush0 := rowsOf(l)
+	rows1, flush1 := rowsOf(l1)
+	if !flush0 || !flush1 {
+		return // (only in cases reshaped by the minimiser) without its flush row an instance has open sessions
+	}
 	for _, er := range l.Rows {
 		if er.ID != "flush" && er.Accepted {
 			perKey[er.KeyS] = append(perKey[er.KeyS], er)
 		}
 	}
 	for g, rows := range perKey {
-		inOrder := true
+		inOrder := rows0[g] == rows1[g] // both instances were given the same rows of this key, in the same order
 		for i := range rows {
 			if rows[i].Late || (i > 0 && rows[i].TS < rows[i-1].TS) {
 				inOrder = false
